@@ -463,6 +463,14 @@ def batch(rec, rng, cid, scratch, cfg):
                   "folder (outside the domain, not judged)")
         shutil.rmtree(folder)
         return
+    if rng.random() < .5:
+        # the results directory holds the statistics of an earlier run
+        (out / "statistics.tsv").write_text(
+            "path\tenum\tE\trating\n"
+            "/data/earlier/run/curve1.jpk-force\t0\t1234.5\t4.2\n"
+            "/data/earlier/run/curve2.jpk-force\t0\t2345.6\t7.7\n")
+        rec.event("batch fits into a results directory that holds the "
+                  "statistics of an earlier run")
     rec.event("batch fits run")
     rec.evaluated(dg=("batch", prof))
     try:
